@@ -420,12 +420,16 @@ func (gb *gcpBalancer) leastBusyReadyRef() *subConnRef {
 }
 
 func (gb *gcpBalancer) getSubConnRoundRobin(ctx context.Context) *subConnRef {
-	if len(gb.scRefList) == 0 {
+	// scRefList is appended to under gb.mu when the pool grows: read it under the lock.
+	gb.mu.RLock()
+	empty := len(gb.scRefList) == 0
+	gb.mu.RUnlock()
+	if empty {
 		gb.newSubConn()
 	}
-	scRef := gb.scRefList[atomic.AddUint32(&gb.rrRefId, 1)%uint32(len(gb.scRefList))]
 
 	gb.mu.RLock()
+	scRef := gb.scRefList[atomic.AddUint32(&gb.rrRefId, 1)%uint32(len(gb.scRefList))]
 	if state := gb.scStates[scRef.subConn]; state == connectivity.Ready {
 		gb.mu.RUnlock()
 		return scRef
